@@ -4,9 +4,9 @@
 use super::hist::*;
 use super::*;
 
-pub const KINDS: [&str; 11] = ["random", "sorted", "reverse", "eqprefix", "bigkeys", "binkeys", "emptyleaf", "hint", "update", "halfpage", "sepdup"];
+pub const KINDS: [&str; 12] = ["random", "sorted", "reverse", "eqprefix", "bigkeys", "binkeys", "emptyleaf", "hint", "update", "halfpage", "sepdup", "intfull"];
 
-pub const DIRECTED: [&str; 5] = ["emptyleaf", "hint", "update", "halfpage", "sepdup"];
+pub const DIRECTED: [&str; 6] = ["emptyleaf", "hint", "update", "halfpage", "sepdup", "intfull"];
 
 pub struct Ran {
     pub hist: History,
@@ -143,7 +143,37 @@ fn final_scans(r: &mut Runner, rng: &mut Rng, nk: usize) {
 }
 
 pub fn generate(rng: &mut Rng, kind: &str, budget: usize) -> Ran { generate_t(rng, kind, budget, false) }
+/// long separators first, then one-byte separators until the root interior page is full, then one more long
+/// separator: split_interior (by count) gets all the long ones in one half
+fn generate_intfull(rng: &mut Rng, track: bool) -> Ran {
+    let (klen, nb, nt) = loop {
+        let klen = 700 + rng.below(500) as usize;
+        let nb = 16368 / (klen + 12);
+        let free = 16368 - nb * (klen + 12);
+        if free >= 150 && free <= 1230 { break (klen, nb, free / 13); }
+    };
+    let mut keys: Vec<KeySpec> = vec![];
+    let nbig = 2 * nb + 2;
+    for i in 0..nbig { keys.push(KeySpec { pfx: vec![0x41, (i + 1) as u8], fill: 97, n: klen - 2, sfx: vec![] }); }
+    let ntiny = 2 * nt;
+    for j in 0..ntiny { keys.push(KeySpec::plain(&[0x42 + j as u8])); }
+    let at = 1 + rng.below((nbig - 2) as u64) as usize;
+    keys.push(KeySpec { pfx: vec![0x41, (at + 1) as u8], fill: 97, n: klen - 2, sfx: vec![1] });
+    let mut r = Runner::new("intfull", keys);
+    r.track = track;
+    let vbig = ((16360 - 16) / 2 - klen - 11) as u32;          // two cells of a long key fill a leaf, a third splits it
+    for i in 0..nbig { let t = r.tag(); if !r.push(Op::Ins(i, Val { len: vbig, tag: t })) { break; } }
+    for j in 0..ntiny { let t = r.tag(); if !r.push(Op::Ins(nbig + j, Val { len: 8000, tag: t })) { break; } }
+    r.push(Op::Fwd(5000));
+    let t = r.tag();
+    r.mutate(Op::Ins(nbig + ntiny, Val { len: vbig, tag: t }));
+    r.push(Op::Fwd(5000));
+    r.push(Op::Bwd(5000));
+    r.finish()
+}
+
 pub fn generate_t(rng: &mut Rng, kind: &str, budget: usize, track: bool) -> Ran {
+    if kind == "intfull" { return generate_intfull(rng, track); }
     let n_keys = match kind { "bigkeys" => 20 + rng.below(50) as usize, "halfpage" => 4 + rng.below(8) as usize, _ => 30 + rng.below(170) as usize };
     let keys = universe(rng, kind, n_keys);
     let nk = keys.len();
@@ -227,7 +257,17 @@ pub fn generate_t(rng: &mut Rng, kind: &str, budget: usize, track: bool) -> Ran 
                 let v = Val { len: pick_len(rng, &sizes), tag: r.tag() };
                 match rng.below(20) {
                     0..=8 => { if rng.chance(1, 6) { r.mutate(Op::Iine(k, v)); } else { r.mutate(Op::Ins(k, v)); } }
-                    9 | 10 => { r.mutate(Op::Upd(k, v)); }
+                    9 | 10 => {
+                        // mostly same-length or shorter values (in-place / shrink paths); growing updates are the
+                        // business of the `update` kind (they enter defect class 4 in nearly full leaves)
+                        let cur = r.oracle.map.get(&r.ex.keys[k]).copied();
+                        let v2 = match (cur, rng.below(6)) {
+                            (Some(c), 0 | 1) => Val { len: c.len, tag: v.tag },
+                            (Some(c), 2 | 3 | 4) => Val { len: rng.below(c.len as u64 + 1) as u32, tag: v.tag },
+                            _ => v,
+                        };
+                        r.mutate(Op::Upd(k, v2));
+                    }
                     11 | 12 => { if del_w > 0 { r.mutate(Op::Del(k)); } else { r.push(Op::Get(k)); } }
                     13 => { if del_w > 1 { r.mutate(Op::Del(k)); } else { r.push(Op::Get(k)); } }
                     14 => { if let Some(m) = r.max_key_idx() { if m + 1 < nk { let kk = m + 1 + rng.below((nk - m - 1) as u64) as usize; r.mutate(Op::App(kk, v)); } } }
